@@ -62,3 +62,14 @@ package digest
 //@   trusted
 //@   modifies ecAdds(ec), ecAddArg(ec)
 //@   ensures ecAdds(ec) == old(ecAdds(ec)) + 1 && ecAddArg(ec) == base(digests.digests)
+
+// Resource name parsers as seen by the ByteStream server (C14): functions of
+// the resource name; their grammar is not verified here (trusted, C20).
+//@ ufunc rcompressor(str) int
+//@ func NewDigestFromByteStreamReadPath
+//@   trusted
+//@   modifies nothing
+//@   ensures result1 == rcompressor(path)
+//@ func NewDigestFromByteStreamWritePath
+//@   trusted
+//@   modifies nothing
